@@ -344,6 +344,9 @@ type Family struct {
 	Spec string // Trace_*.tla module
 	Cfg  string
 	Env  []string // extra environment for TLC (e.g. VPROP=C08 selects the clause set)
+	// Retries > 0: executions of a case are not deterministic (fresh random hash seeds per instance); a rejected
+	// case is confirmed / replayed by running that many fresh copies of it and needs one of them to be rejected.
+	Retries int
 	// Run executes one case against the real code and emits its events (the first must be "reset").
 	Run func(cs json.RawMessage, w *TraceWriter)
 	// Sig names the failing shape of a rejected case (used for known-findings and de-duplication).
@@ -533,7 +536,11 @@ func (c *Ctx) TraceCheck(f *Family, cases []json.RawMessage) {
 				idx = j
 			}
 		}
-		again, err := c.validate(f, []json.RawMessage{cases[idx]}, 1)
+		confirm := []json.RawMessage{cases[idx]}
+		for r := 0; r < f.Retries; r++ {
+			confirm = append(confirm, cases[idx])
+		}
+		again, err := c.validate(f, confirm, 1)
 		if err != nil {
 			c.Infra("re-validation failed: %v", err)
 			continue
@@ -689,7 +696,11 @@ func (c *Ctx) Replay(path string) {
 		c.Infra("unknown family %q in replay file", r.Family)
 		return
 	}
-	c.TraceCheck(f, []json.RawMessage{r.Case})
+	rc := []json.RawMessage{r.Case}
+	for i := 0; i < f.Retries; i++ {
+		rc = append(rc, r.Case)
+	}
+	c.TraceCheck(f, rc)
 }
 
 // goReplays re-executes cases of Go-side monitors.
